@@ -681,6 +681,8 @@ def portuguese():
         add(w + "s", cls, d, "ᵒˢ")
         add(w[:-1] + "as", cls, d, "ᵃˢ")
     rows.append({"word": ",", "cls": "comma", "digits": "", "marker": None, "expect": None, "desc": "a comma is never a number word (it ends the number in progress)"})
+    rows.append({"word": "e", "cls": "link", "digits": "", "marker": None, "expect": None, "desc": "the conjunction: a link word once the number has two digits (not right after `cem`); it lifts the ban on a following number below one hundred"})
+    rows.append({"word": "mil", "cls": "scale", "digits": "", "marker": None, "expect": "1000", "desc": "multiplies the last group by 1000 (implicit one on an empty group; not `um mil`, not `cento mil`)"})
 
     def strip_all(w, sfx):
         while sfx and w.endswith(sfx):
@@ -716,6 +718,10 @@ def portuguese():
     def row_stmt(r):
         if r["word"] == ",":
             return f"!pt_model({W(',')}, o).ok && !(pt_model({W(',')}, o).err is Incomplete)"
+        if r["cls"] == "link":
+            return f"(o.marker is None) ==> res_same(pt_model({W('e')}, o), pt_fin(if size_of(o) >= 2 && !pt_only_mult(o) {{ err_res(o, Error::Incomplete) }} else {{ err_res(o, Error::NaN) }}, 0, MorphologicalMarker::None))"
+        if r["cls"] == "scale":
+            return f"(o.marker is None) ==> res_same(pt_model({W('mil')}, o), pt_fin(pt_mil_base(o), 0, MorphologicalMarker::None))"
         cls = {"zero": 0, "unit": 1, "small": 2, "cem": 3, "hundred": 4, "ordunit": 5, "ordnono": 6}[r["cls"]]
         return f"pt_row({digs(r['digits'])}, {WANT[r['marker']]}, {cls}, o, pt_model({W(r['word'])}, o))"
     extra = ["as", "os", "duas", "zero", "im", "primeir", "segund", "terceir", "quart", "quint", "sext", "sétim", "oitav", "non", "vírgula", ""]
@@ -724,6 +730,39 @@ def portuguese():
     inner = emit_rows(c, rows, word_facts, row_stmt)
     emit_words(c, allwords, inner, arms)
     json.dump(rows, open(os.path.join(T, f"{c}_rows.json"), "w", encoding="utf-8"), ensure_ascii=False)
+    # dispatch lemmas for the spelling driver
+    modof = {r["word"]: k % 8 for k, r in enumerate(rows)}
+    d = ["// generated by tools/gen_lang.py: words of the Portuguese speller chosen by value, with their grammar rows (used by pt_driver.inc)"]
+    uw = ["um", "dois", "três", "quatro", "cinco", "seis", "sete", "oito", "nove"]
+    tw = ["dez", "onze", "doze", "treze", "catorze", "quinze", "dezasseis", "dezassete", "dezoito", "dezanove"]
+    nw = ["vinte", "trinta", "quarenta", "cinquenta", "sessenta", "setenta", "oitenta", "noventa"]
+    hw = ["cento", "duzentos", "trezentos", "quatrocentos", "quinhentos", "seiscentos", "setecentos", "oitocentos", "novecentos"]
+
+    def sel(name, doc, ws, lo):
+        d.append(f"/// {doc}")
+        d.append(f"pub open spec fn {name}(d: int) -> Seq<char> {{ " + " else ".join(f"if d == {lo + i} {{ {W(w)} }}" for i, w in enumerate(ws[:-1])) + f" else {{ {W(ws[-1])} }} }}")
+
+    def disp(name, fn, ws, lo, stmt):
+        d.append(f"pub proof fn {name}(d: int, o: DsView)")
+        d.append(f"    requires {lo} <= d <= {lo + len(ws) - 1}")
+        d.append(f"    ensures {stmt}")
+        d.append("{")
+        d.append("    reveal(d1); reveal(d2); reveal(d3);")
+        for i, w in enumerate(ws):
+            d.append(f"    if d == {lo + i} {{ {c}_rows_{modof[w]}::lemma_{c}_row_{wname(w)}(o); }}")
+        d.append("}")
+    sel("pt_unit_w", "cardinal word of the digit d in 1..9", uw, 1)
+    disp("lemma_pt_unit", "pt_unit_w", uw, 1, "pt_row(d1((48 + d) as u8), 0, 1, o, pt_model(pt_unit_w(d), o))")
+    sel("pt_teen_w", "dez .. dezanove: the word of 10 + d", tw, 0)
+    disp("lemma_pt_teen", "pt_teen_w", tw, 0, "pt_row(d2(49u8, (48 + d) as u8), 0, 2, o, pt_model(pt_teen_w(d), o))")
+    sel("pt_tens_w", "vinte .. noventa: the word of 10 * d", nw, 2)
+    disp("lemma_pt_tens", "pt_tens_w", nw, 2, "pt_row(d2((48 + d) as u8, 48u8), 0, 2, o, pt_model(pt_tens_w(d), o))")
+    sel("pt_hund_w", "cento, duzentos .. novecentos: the word of 100 * d", hw, 1)
+    disp("lemma_pt_hund", "pt_hund_w", hw, 1, "pt_row(d3((48 + d) as u8, 48u8, 48u8), 0, 4, o, pt_model(pt_hund_w(d), o))")
+    byw = {r["word"]: r for r in rows}
+    for nm, w in [("lemma_pt_cem", "cem"), ("lemma_pt_e", "e"), ("lemma_pt_mil", "mil"), ("lemma_pt_zero", "zero")]:
+        d.append(f"pub proof fn {nm}(o: DsView) ensures {row_stmt(byw[w])} {{ {c}_rows_{modof[w]}::lemma_{c}_row_{wname(w)}(o); }}")
+    open(os.path.join(T, "pt_dispatch.inc"), "w", encoding="utf-8").write("\n".join(d) + "\n")
     print(c + ":", len(arms), "arms,", len(rows), "rows,", len(allwords), "words")
 
 
